@@ -29,3 +29,8 @@ class rule_500(token_case):
     def __init__(self):
         super().__init__(lTokens)
         self.groups.append("case::name")
+
+    def _get_tokens_of_interest(self, oFile):
+        lToi = super()._get_tokens_of_interest(oFile)
+        # Character literals are case sensitive:  'X' and 'x' are different enumeration values.
+        return [oToi for oToi in lToi if not oToi.get_tokens()[0].get_value().startswith("'")]
